@@ -74,6 +74,9 @@ def c04(ctx, replay):
         args += ["-bufs", "1,512", "-modes-on", "ct", "-chunks", "whole"]
     else:
         args += ["-bufs", "1,2,7,512,4096,32768", "-modes-on", "ct,nct", "-chunks", "whole,rand", "-stride", "3"]
+    # the adapters over Conn.Reader too: NetConn.Read (byte stream) and wsjson.Read (JSON bodies, incl. a value that is complete
+    # before the message is: white space or empty fragments still to come)
+    args += ["-apis", "reader,read,netconn,wsjson"]
     rtrace = ctx.path("c04recv.ndjson")
     args += ["-recv-trace", rtrace, "-trace-every", 40 if ctx.quick() else 200]
     rep = ctx.drive("cut", args, timeout=7200)
@@ -83,7 +86,7 @@ def c04(ctx, replay):
     ctx.extra["exhaustive"] = True
     ctx.extra["rule"] = ("every valid stream of at most %d frames (fragmented, empty fragments, interleaved ping/pong, compressed) "
                          "cut at EVERY byte offset 0..len, ended by EOF and by a transport error, x role x read-buffer size x "
-                         "Conn.Reader/Conn.Read; distinct = (stream, frames complete, cut class) triples" % n)
+                         "Conn.Reader/Conn.Read/NetConn.Read/wsjson.Read (JSON bodies spanning the message, or complete before its last fragments); distinct = (stream, frames complete, cut class) triples" % n)
     ctx.assumptions += ["TLC", "Go compress/flate as reference codec", "harness frame encoder written from RFC 6455 5.2"]
 
 
@@ -128,7 +131,8 @@ SIG_C02 = {"masking-wrong-for-role", "rsv2-or-rsv3-set", "length-not-minimally-e
            "header-undecodable", "length-beyond-2^31", "mask-key-not-refreshed", "mask-key-reused", "second-close-frame", "data-frame-after-close-frame",
            "peer-received-corrupt-message"}
 SIG_C15 = {"ping-returned-nil-without-its-own-pong", "pong-matched-against-wrong-ping-set", "pong-does-not-echo-next-ping",
-           "ping-frame-payload-is-not-a-registered-ping", "two-ping-frames-in-flight-with-the-same-payload"}
+           "ping-frame-payload-is-not-a-registered-ping", "two-ping-frames-in-flight-with-the-same-payload",
+           "ping-returned-nil-although-its-pong-was-withheld"}
 SIG_C20 = {"library-goroutine-alive-when-close-returned", "close-returned-with-connection-open", "timeoutloop-exited-with-connection-open",
            "closeread-goroutine-exited-with-connection-open"}
 SIG_C10 = {"timeoutloop-received-other-write-context", "write-context-handoff-never-received", "timeoutloop-received-unsent-write-context",
@@ -149,7 +153,7 @@ SIG_RECV_C03 = SIG_RECV_FRAMING | {"control-frame-with-violation-processed", "vi
                                    "close-reported-without-a-close-frame", "close-error-differs-from-the-frame", "bytes-handed-over-without-a-message"}
 SIG_RECV_C04 = {"clean-end-of-an-incomplete-message", "message-reported-complete-with-bytes-missing", "more-bytes-handed-over-than-received-for-the-message"}
 SIG_RECV_C08 = {"more-than-limit-plus-one-bytes-handed-over", "message-beyond-the-limit-reported-complete", "read-limit-error-before-the-limit"}
-SIG_RECV_C15 = {"pong-written-without-a-received-ping", "pong-does-not-echo-the-next-received-ping"}
+SIG_RECV_C15 = {"pong-written-without-a-received-ping", "pong-does-not-echo-the-next-received-ping", "pong-processing-for-a-frame-that-is-not-a-pong"}
 # signatures of TraceSend.tla (outbound message pipeline of every recorded execution)
 SIG_SEND_C05 = {"message-started-without-the-message-lock", "writer-step-without-the-writer-lock", "chunk-written-without-an-open-message",
                 "message-closed-without-an-open-message"}
@@ -534,9 +538,14 @@ def c07(ctx, replay):
     rep = ctx.drive("stuck", ["-conn-trace", sconn, "-pool-trace", spool], timeout=600)
     ctx.absorb(rep)
     rej, _ = trace_validate(ctx, "TraceConn", "TraceConn.cfg", sconn, name="TraceConn(stuck transport)")
-    absorb_rejections(ctx, rej, "TraceConn", sconn, only={"forcelock-acquired-while-held", "read-step-without-read-lock", "lock-acquired-while-held"})
+    absorb_rejections(ctx, rej, "TraceConn", sconn, only={"forcelock-acquired-while-held", "read-step-without-read-lock", "lock-acquired-while-held", "pooled-object-released-without-its-lock"})
     rej, _ = trace_validate(ctx, "TracePool", "TracePool.cfg", spool, name="TracePool(stuck transport)")
     absorb_rejections(ctx, rej, "TracePool", spool, only=SIG_C07_TRACE)
+    # the concurrent campaign: every pooled object is handed back by the goroutine that holds the lock guarding it (TraceConn)
+    conn = ctx.path("connlocks.ndjson")
+    ctx.drive("conc", ["-n", 150 if ctx.quick() else 1500, "-seed", ctx.seed, "-conn-trace", conn], timeout=2400)
+    rej, _ = trace_validate(ctx, "TraceConn", "TraceConn.cfg", conn, name="TraceConn(conc, pooled objects)")
+    absorb_rejections(ctx, rej, "TraceConn", conn, only={"pooled-object-released-without-its-lock"})
     if not ctx.quick():
         repo_tests_traced(ctx, set(), only_pool=SIG_C07_TRACE)
         # pool events of the concurrent campaign (many connections in flight at once), under the same ownership rules
